@@ -44,6 +44,9 @@ func genTPlan(rt *rapid.T, pairs [][2]int, maxBatches int, withFailing bool) tPl
 			nslow := rapid.IntRange(0, len(rest)-p.T).Draw(rt, "nslow")
 			tb.Slow = append(tb.Slow, rest[:nslow]...)
 		}
+		if rapid.IntRange(0, 3).Draw(rt, "aged") == 0 {
+			tb.AgeDays = rapid.SampledFrom([]int{1, 6, 8, 40}).Draw(rt, "ageDays")
+		}
 		p.Batches = append(p.Batches, tb)
 	}
 	p.Tape = rapid.SliceOfN(rapid.IntRange(0, 1000), 0, 80).Draw(rt, "tape")
